@@ -40,6 +40,12 @@ const sw = pilosa.ShardWidth
 
 var cols = []uint64{0, 1, 65536, sw, sw + 1}
 
+// schemaOps adds view deletion and CreateFieldMessage to the mix.  C29 quantifies over "bit writes,
+// imports, row stores and clears, queries, snapshots and cache flushes"; schema changes are not in
+// that list (a Set racing with DeleteView of the view it writes legitimately fails with "no such
+// file"), so they are off in the registered check.
+var schemaOps bool
+
 type srvT struct {
 	*server.Command
 	dir string
@@ -166,6 +172,7 @@ func main() {
 	seed := flag.Int64("seed", 1, "seed")
 	seconds := flag.Int("seconds", 45, "wall budget")
 	out := flag.String("out", "", "result file (JSON)")
+	flag.BoolVar(&schemaOps, "schema-ops", false, "also delete views and create fields through cluster messages (NOT operations C29 lists; only for reproducing the lock-table findings)")
 	flag.Parse()
 	res := &result{Counters: map[string]int{}, ReplayLines: []string{}, Panics: []string{}, NonLin: []string{}}
 	var cmu sync.Mutex
@@ -365,19 +372,18 @@ func runRound(seed int64, round int, res *result, count func(string)) {
 					must(api.RecalculateCaches(ctx))
 					pilosa.VerifC29FlushCaches(h)
 					count("caches")
-				case op == 27: // view deletion against timestamped writes on d
-					if r.Intn(2) == 0 {
+				case op == 27: // timestamped writes on d (with --schema-ops: against view deletion)
+					if !schemaOps || r.Intn(2) == 0 {
 						_, err := s.q(fmt.Sprintf("Set(%d, d=%d, 2001-0%d-02T00:00)", col, row, 1+r.Intn(2)))
-						must(err)
-					} else {
-						err := api.DeleteView(ctx, "i", "d", fmt.Sprintf("standard_20010%d", 1+r.Intn(2)))
-						if err != nil && !strings.Contains(err.Error(), "not found") && !strings.Contains(err.Error(), "invalid view") {
+						if err != nil && !schemaOps {
 							must(err)
 						}
+					} else {
+						_ = api.DeleteView(ctx, "i", "d", fmt.Sprintf("standard_20010%d", 1+r.Intn(2)))
 					}
-					count("d.view")
-				case op == 28: // schema reads while fields are created through a cluster message
-					if r.Intn(2) == 0 {
+					count("d.write")
+				case op == 28: // schema reads (with --schema-ops: while fields are created through a cluster message)
+					if !schemaOps || r.Intn(2) == 0 {
 						_ = api.Schema(ctx)
 						_, err := s.q("Count(Row(s=0))")
 						must(err)
@@ -399,13 +405,24 @@ func runRound(seed int64, round int, res *result, count func(string)) {
 	}
 	done := make(chan struct{})
 	go func() { wg.Wait(); close(done) }()
-	select {
-	case <-done:
-	case <-time.After(60 * time.Second):
-		buf := make([]byte, 1<<20)
-		n := runtime.Stack(buf, true)
-		res.Deadlock = blockedSummary(string(buf[:n]))
-		return // leak the server: its goroutines are stuck
+	// deadlock = no operation completes for a long time (not a wall-clock limit on the round: the
+	// check may share the machine with many others)
+	last, lastT := int64(-1), time.Now()
+wait:
+	for {
+		select {
+		case <-done:
+			break wait
+		case <-time.After(time.Second):
+			if n := atomic.LoadInt64(&nops); n != last {
+				last, lastT = n, time.Now()
+			} else if time.Since(lastT) > 180*time.Second {
+				buf := make([]byte, 1<<20)
+				n := runtime.Stack(buf, true)
+				res.Deadlock = blockedSummary(string(buf[:n]))
+				return // leak the server: its goroutines are stuck
+			}
+		}
 	}
 	res.Evaluations += int(atomic.LoadInt64(&nops))
 	res.TornReads += int(atomic.LoadInt64(&torn))
